@@ -1,12 +1,18 @@
 (* Driver for the extracted C19 model: same case file as harness/c19_import.cpp, one canonical line per case.
      CSV  <data|cls|reg> <d|f> <F|L> <nout> <sep> <comment> <maxBatch> <s|f> <hex>
-     SCL  <i|u|f|d> <sep> <comment> <maxBatch> <hex>
+     SCL  <i|u|f|d> <sep> <comment> <maxBatch> [<s|f>] <hex>
      SVM  <cls|reg> <d|f> <v|c> <highestIndex> <batchSize> <s|f> <hex>
      XCSV <data|cls|reg> <d|f> <F|L> <nout> <sep> <maxBatch> <s|f> <rows>     rows: lab|tok,tok;...
      XSVM <cls|reg> <v|c> <batchSize> <rows>                                   rows: lab|val,val;...  (decimal doubles)
    XSVM: the element stores every component (v, dense) or its non-zeros (c, compressed); a double becomes the token
    operator<< prints with the default precision (printf "%g"), the model exports and re-imports the tokens.
-   Tokens are turned into doubles here (float_of_string = correctly rounded strtod); 'f' variants round to single. *)
+   Tokens are turned into doubles here (float_of_string = correctly rounded strtod); 'f' variants round to single.
+     OBS  <numElements> <maximumBatchSize>      opt_sizes64 (detail::optimalBatchSizes in size_t arithmetic), 64-bit decimals
+     OBI  <numElements> <batchSize>             init_sizes64 (SharedContainer::initializeBatches)
+   Batch sizes are 64-bit unsigned decimals and are passed to the model as binary numbers (N); the model caps them at
+   records + 1 after parsing (C19BigBatch.cap, proved not to change the result).  Every import runs twice through the
+   *_into entry points: with an empty target and with a target that holds an earlier import (C19_import_ignores_target);
+   the two lines must be equal (REUSE-DIFF otherwise), as in the harness. *)
 open C19_model
 
 let rec nat_of_int n = if n <= 0 then O else S (nat_of_int (n - 1))
@@ -17,10 +23,20 @@ let rec int_of_pos = function XH -> 1 | XO p -> 2 * int_of_pos p | XI p -> 2 * i
 let int_of_n = function N0 -> 0 | Npos p -> int_of_pos p
 let int_of_z = function Z0 -> 0 | Zpos p -> int_of_pos p | Zneg p -> - (int_of_pos p)
 
+(* 64-bit (any size) decimals <-> N, with the extracted arithmetic *)
+let n_of_dec s =
+  if s = "" then failwith "empty number";
+  let ten = n_of_int 10 in
+  let acc = ref N0 in
+  String.iter (fun c -> if c < '0' || c > '9' then failwith ("bad number " ^ s);
+                acc := N.add (N.mul !acc ten) (n_of_int (Char.code c - 48))) s;
+  !acc
 let bytes_of_string s = List.init (String.length s) (fun i -> n_of_int (Char.code s.[i]))
 let string_of_bytes l = String.concat "" (List.map (fun b -> String.make 1 (Char.chr (int_of_n b))) l)
 let unhex h = String.init (String.length h / 2) (fun i -> Char.chr (int_of_string ("0x" ^ String.sub h (2 * i) 2)))
 let hex s = String.concat "" (List.init (String.length s) (fun i -> Printf.sprintf "%02x" (Char.code s.[i])))
+
+let dec_of_n n = string_of_bytes (print_nat n)
 
 let sgn = function Some true -> "-" | _ -> ""
 let float_of_num = function
@@ -51,11 +67,29 @@ let sparse rnd v =
                                        if y = 0.0 then None else Some (string_of_int (int_of_z i) ^ ":" ^ hexf y)) v)
 let zlab l = string_of_int (int_of_z l)
 
+(* targets: the empty dataset and one that holds an earlier import of other data of the same type *)
+let empty () = { ds_batches = []; ds_dim = Z0 }
+let filled = function Ok d when ds_elems d <> [] -> d | _ -> failwith "prefill import failed"
+let comma = n_of_int 44 and hash = n_of_int 35 and two = n_of_int 2
+let pre_data = lazy (filled (csv_import_data_into (empty ()) comma hash two (bytes_of_string "7,8,9\n1,2,3\n4,5,6\n")))
+let pre_cls = lazy (filled (csv_import_cls_into (empty ()) true comma hash two (bytes_of_string "2,7,8\n0,1,2\n1,4,5\n")))
+let pre_reg = lazy (filled (csv_import_reg_into (empty ()) true (nat_of_int 1) comma hash two (bytes_of_string "7,8,9\n1,2,3\n4,5,6\n")))
+let pre_ints = lazy (filled (csv_import_ints_into (empty ()) hash two (bytes_of_string "5 6 7 8 9\n")))
+let pre_uints = lazy (filled (csv_import_uints_into (empty ()) hash two (bytes_of_string "5 6 7 8 9\n")))
+let pre_reals = lazy (filled (csv_import_reals_into (empty ()) hash two (bytes_of_string "5 6.5 7 8 9\n")))
+let pre_scls = lazy (filled (svm_import_cls_into (empty ()) false Z0 two (bytes_of_string "1 1:5 2:6\n-1 1:7 3:1\n1 2:2\n")))
+let pre_sreg = lazy (filled (svm_import_reg_into (empty ()) false Z0 two (bytes_of_string "1.5 1:5 2:6\n-1 1:7 3:1\n2 2:2\n")))
+let twice pre (f : 'd -> string) =
+  let a = f (empty ()) and b = f (Lazy.force pre) in
+  if a = b then a else "REUSE-DIFF fresh=[" ^ a ^ "] reused=[" ^ b ^ "]"
+
 let csv_line variant rnd first nout sep cm mb bytes =
   match variant with
-  | "data" -> outcome (fun d -> show ~dimstr:(dim_of d) ~cls:"-" (fun () -> "") (dense rnd) d) (csv_import_data sep cm mb bytes)
-  | "cls" -> outcome (fun d -> show ~dimstr:(dim_of d) ~cls:(cls_of d) zlab (dense rnd) d) (csv_import_cls first sep cm mb bytes)
-  | _ -> outcome (fun d -> show ~dimstr:(dim_of d) ~cls:"-" (dense rnd) (dense rnd) d) (csv_import_reg first nout sep cm mb bytes)
+  | "data" -> twice pre_data (fun t -> outcome (fun d -> show ~dimstr:(dim_of d) ~cls:"-" (fun () -> "") (dense rnd) d) (csv_import_data_into t sep cm mb bytes))
+  | "cls" -> twice pre_cls (fun t -> outcome (fun d -> show ~dimstr:(dim_of d) ~cls:(cls_of d) zlab (dense rnd) d) (csv_import_cls_into t first sep cm mb bytes))
+  | _ -> twice pre_reg (fun t -> outcome (fun d -> show ~dimstr:(dim_of d) ~cls:"-" (dense rnd) (dense rnd) d) (csv_import_reg_into t first nout sep cm mb bytes))
+
+let sizes_line l = "S " ^ String.concat "," (List.map dec_of_n l)
 
 let parse_tok t = match lex_double (bytes_of_string t) with
   | Some (v, []) -> v
@@ -68,27 +102,28 @@ let run toks =
     let bytes = bytes_of_string (unhex (match rest with h :: _ -> h | [] -> "")) in
     let rnd = if prec = "f" then single else (fun x -> x) in
     csv_line variant rnd (lp = "F") (nat_of_int (int_of_string nout)) (n_of_int (int_of_string sep land 255))
-      (n_of_int (int_of_string cm land 255)) (nat_of_int (int_of_string mb)) bytes
+ (n_of_int (int_of_string cm land 255)) (n_of_dec mb) bytes
   | "SCL" :: ty :: _ :: cm :: mb :: rest ->
+    let rest = (match rest with ("s" | "f") :: r -> r | r -> r) in
     let bytes = bytes_of_string (unhex (match rest with h :: _ -> h | [] -> "")) in
-    let cm = n_of_int (int_of_string cm land 255) and mb = nat_of_int (int_of_string mb) in
+    let cm = n_of_int (int_of_string cm land 255) and mb = n_of_dec mb in
     let sh p d = show ~dimstr:"-" ~cls:"-" (fun () -> "") p d in
     (match ty with
-     | "i" -> outcome (sh (fun z -> hexf (float_of_int (int_of_z z)))) (csv_import_ints cm mb bytes)
-     | "u" -> outcome (sh (fun z -> hexf (float_of_int (int_of_z z)))) (csv_import_uints cm mb bytes)
-     | "f" -> outcome (sh (fun x -> hexf (single (float_of_num x)))) (csv_import_reals cm mb bytes)
-     | _ -> outcome (sh (fun x -> hexf (float_of_num x))) (csv_import_reals cm mb bytes))
+     | "i" -> twice pre_ints (fun t -> outcome (sh (fun z -> hexf (float_of_int (int_of_z z)))) (csv_import_ints_into t cm mb bytes))
+     | "u" -> twice pre_uints (fun t -> outcome (sh (fun z -> hexf (float_of_int (int_of_z z)))) (csv_import_uints_into t cm mb bytes))
+     | "f" -> twice pre_reals (fun t -> outcome (sh (fun x -> hexf (single (float_of_num x)))) (csv_import_reals_into t cm mb bytes))
+     | _ -> twice pre_reals (fun t -> outcome (sh (fun x -> hexf (float_of_num x))) (csv_import_reals_into t cm mb bytes)))
   | "SVM" :: variant :: prec :: store :: hi :: bs :: _ :: rest ->
     let bytes = bytes_of_string (unhex (match rest with h :: _ -> h | [] -> "")) in
     let rnd = if prec = "f" then single else (fun x -> x) in
-    let comp = (store = "c") and hi = z_of_int (int_of_string hi) and bs = nat_of_int (int_of_string bs) in
+    let comp = (store = "c") and hi = z_of_int (int_of_string hi) and bs = n_of_dec bs in
     let cl = function Ok _ -> "OK" | Exc -> "EXC" | Fault -> "FAULT" in
     if variant = "cls" then
-      outcome (fun d -> show ~dimstr:(dim_of d) ~cls:(cls_of d) zlab (sparse rnd) d) (svm_import_cls comp hi bs bytes)
-      ^ " coded=" ^ cl (svm_import_cls_coded comp hi bs bytes)
+      twice pre_scls (fun t -> outcome (fun d -> show ~dimstr:(dim_of d) ~cls:(cls_of d) zlab (sparse rnd) d) (svm_import_cls_into t comp hi bs bytes))
+      ^ " coded=" ^ cl (svm_import_cls_coded_N comp hi bs bytes)
     else
-      outcome (fun d -> show ~dimstr:(dim_of d) ~cls:"-" (fun l -> hexf (rnd (float_of_num l))) (sparse rnd) d) (svm_import_reg comp hi bs bytes)
-      ^ " coded=" ^ cl (svm_import_reg_coded comp hi bs bytes)
+      twice pre_sreg (fun t -> outcome (fun d -> show ~dimstr:(dim_of d) ~cls:"-" (fun l -> hexf (rnd (float_of_num l))) (sparse rnd) d) (svm_import_reg_into t comp hi bs bytes))
+      ^ " coded=" ^ cl (svm_import_reg_coded_N comp hi bs bytes)
   | "XCSV" :: variant :: prec :: lp :: nout :: sep :: mb :: _ :: rows :: _ ->
     let rnd = if prec = "f" then single else (fun x -> x) in
     let sepb = n_of_int (int_of_string sep land 255) and first = (lp = "F") in
@@ -100,7 +135,7 @@ let run toks =
       | "cls" -> export_cls first sepb (List.map (fun (l, v) -> (n_of_int (int_of_string (List.hd l)), v)) recs)
       | _ -> export_reg first sepb (List.map (fun (l, v) -> (List.map parse_tok l, v)) recs) in
     "X text=" ^ hex (string_of_bytes text) ^ " " ^
-    csv_line variant rnd first (nat_of_int (int_of_string nout)) sepb (n_of_int 35) (nat_of_int (int_of_string mb)) text
+    csv_line variant rnd first (nat_of_int (int_of_string nout)) sepb (n_of_int 35) (n_of_dec mb) text
   | "XSVM" :: variant :: store :: bs :: rows :: _ ->
     let comp = (store = "c") in
     let tok_of x = parse_tok (Printf.sprintf "%g" x) in
@@ -108,17 +143,20 @@ let run toks =
         | [l; v] -> (l, List.map float_of_string (split ',' v))
         | _ -> failwith "bad row") (split ';' rows) in
     let entries vals = List.concat (List.mapi (fun j x -> if comp && x = 0.0 then [] else [(n_of_int j, tok_of x)]) vals) in
-    let bsn = nat_of_int (int_of_string bs) in
+    let bsn = n_of_dec bs in
     let id x = x in
     if variant = "cls" then begin
       let text = export_svm_cls (List.map (fun (l, vals) -> (n_of_int (int_of_float (float_of_string l)), entries vals)) recs) in
       "X text=" ^ hex (string_of_bytes text) ^ " " ^
-      outcome (fun d -> show ~dimstr:(dim_of d) ~cls:(cls_of d) zlab (sparse id) d) (svm_import_cls comp Z0 bsn text)
+      twice pre_scls (fun t -> outcome (fun d -> show ~dimstr:(dim_of d) ~cls:(cls_of d) zlab (sparse id) d) (svm_import_cls_into t comp Z0 bsn text))
     end else begin
       let text = export_svm_reg (List.map (fun (l, vals) -> (tok_of (float_of_string l), entries vals)) recs) in
       "X text=" ^ hex (string_of_bytes text) ^ " " ^
-      outcome (fun d -> show ~dimstr:(dim_of d) ~cls:"-" (fun l -> hexf (float_of_num l)) (sparse id) d) (svm_import_reg comp Z0 bsn text)
+      twice pre_sreg (fun t -> outcome (fun d -> show ~dimstr:(dim_of d) ~cls:"-" (fun l -> hexf (float_of_num l)) (sparse id) d) (svm_import_reg_into t comp Z0 bsn text))
     end
+  | "OBS" :: n :: m :: _ ->
+    (match opt_sizes64 (n_of_dec n) (n_of_dec m) with Some l -> sizes_line l | None -> "FAULT")
+  | "OBI" :: n :: b :: _ -> sizes_line (init_sizes64 (n_of_dec n) (n_of_dec b))
   | _ -> "BADCASE"
 
 let () =
